@@ -48,6 +48,9 @@ func c04Cases(seed int64, tier string) []core.Case {
 	for i, cfg := range []Ext4Cfg{{Size: 16 << 20}, {Size: 32 << 20, SPB: 8, Off: []string{"resize_inode"}, Start: 1 << 20}} {
 		cs = append(cs, core.MkCase(fmt.Sprintf("stalegap-%d", i), "stalegap", seed+int64(i), ext4Case{Cfg: cfg, Mode: "stalegap"}))
 	}
+	for i, cfg := range []Ext4Cfg{{Size: 64 << 20}, {Size: 32 << 20, SPB: 2, BPG: 2048, Start: 1 << 20}} {
+		cs = append(cs, core.MkCase(fmt.Sprintf("bigwrite-%d", i), "bigwrite", seed+int64(i), ext4Case{Cfg: cfg, Mode: "bigwrite"}))
+	}
 	nf := 4
 	if tier == "thorough" {
 		nf = 40
